@@ -343,12 +343,14 @@ class Lab:
         self.pair.run(lambda q: subj.terminated is not None, max_time=max_time, max_steps=3000)
 
     def sent_closes(self):
-        d = "c2s" if self.side == "client" else "s2c"
+        """CONNECTION_CLOSE frames the subject put on the wire, from its own qlog (packet_sent); the wire
+        observer is not used here because the subject may have switched to a peer CID of another length"""
         out = []
-        for name in ("CONNECTION_CLOSE", "CONNECTION_CLOSE_APP"):
-            for pk, f in self.pair.observer.frames(d, name):
-                if not pk.injected:
-                    out.append(dict(f.fields, transport=(name == "CONNECTION_CLOSE")))
+        for ev in self.subject.qlog_events():
+            if ev["name"] == "transport:packet_sent":
+                for f in ev["data"].get("frames", []):
+                    if f.get("frame_type") == "connection_close":
+                        out.append({"error_code": f.get("error_code"), "transport": f.get("error_space") == "transport"})
         return out
 
     # -- input ops -------------------------------------------------------------------------
@@ -669,7 +671,8 @@ def header_observe(case):
     elif drops and drops[0] in DROP_WHY:
         exp = [1, DROP_WHY[drops[0]]]
     elif drops and drops[0] == "unexpected_packet":
-        exp = [2, 0]
+        # Retry / Version Negotiation that is not acted upon; or (patched tree) a non-INITIAL first packet
+        exp = [2, 0] if (h is not None and h.packet_type.name in ("RETRY", "VERSION_NEGOTIATION")) else [1, 6]
     elif any(e["name"] == "transport:packet_received" and e["data"]["header"].get("packet_type") in ("retry", "version_negotiation")
              for e in evs):
         exp = [2, 0]
@@ -1239,8 +1242,21 @@ def run(ctx):
                     nontrivial=lambda c, out: len(c["frames"]) >= 1, opname=_frame_name)
     hd = corr.Suite(ctx, "header", "exec_c05", header_encode, header_impl, None, None, None,
                     nontrivial=lambda c, out: bool(out))
-    fr.oracle = oracle_frames
-    hd.oracle = oracle
+    def once(f):
+        # one violation per distinct signature over the whole run (the suites report directly)
+        def g(case):
+            bad = f(case)
+            if not bad:
+                return None
+            key = json.dumps(bad[1], sort_keys=True)
+            stats["problem_signatures"][key] += 1
+            if key in reported:
+                return None
+            reported[key] = True
+            return bad
+        return g
+    fr.oracle = once(oracle_frames)
+    hd.oracle = once(oracle)
     fr.run(corr.load_corpus("C05", "frames"), "corpus")
     hd.run(corr.load_corpus("C05", "header"), "corpus")
     fcases = gen_frame_cases(rng, ctx.n(5000, 60000))
